@@ -412,6 +412,7 @@ fn op_store(ctx: &mut Ctx, op: &Value, ev: &mut Map<String, Value>) {
                     }
                 }
             }
+            relational(sb, &q, op, ev);
             // the same search with other markers (restored afterwards)
             if let Some(Value::Array(alts)) = op.get("alt") {
                 let mut out = Vec::new();
@@ -460,6 +461,60 @@ fn op_store(ctx: &mut Ctx, op: &Value, ev: &mut Map<String, Value>) {
         if !sb.poisoned {
             ev.insert("proj".into(), sb.proj());
         }
+    }
+}
+
+/// the same query on related stores built from the harness' shadow of this store: every record alone,
+/// an unlimited limit, pairs of hits in both insertion orders, permuted insertion orders
+fn relational(sb: &StoreBox, q: &[u32], op: &Value, ev: &mut Map<String, Value>) {
+    let lang = sb.lang.clone();
+    let (limit, l, r) = (sb.limit, sb.left.clone(), sb.right.clone());
+    let run = |recs: &[(usize, Vec<u32>, usize)], limit: usize| -> Value {
+        match guarded(|| {
+            let st = fresh_store(&lang, recs, limit, &l, &r);
+            do_search(&st, q)
+        }) {
+            Ok(h) => hits_json(&h),
+            Err(msg) => json!([{"id": 0, "title": [], "panic": msg}]),
+        }
+    };
+    if wants(op, "singles") {
+        let out: Vec<Value> = sb.shadow.iter().map(|rec| json!({"id": rec.0, "hits": run(&[rec.clone()], limit)})).collect();
+        ev.insert("singles".into(), Value::Array(out));
+    }
+    if wants(op, "unlimited") {
+        ev.insert("unlimited".into(), run(&sb.shadow, sb.shadow.len() + 10));
+    }
+    if wants(op, "pairs") {
+        if let Some(Value::Array(hits)) = ev.get("hits").cloned() {
+            let ids: Vec<usize> = hits.iter().map(|h| get_u(h, "id") as usize).collect();
+            let find = |id: usize| sb.shadow.iter().find(|rec| rec.0 == id).cloned();
+            let maxp = std::cmp::max(1, get_u(op, "max_pairs")) as usize;
+            let mut out = Vec::new();
+            'outer: for gap in 1..ids.len() {
+                for i in 0..ids.len() - gap {
+                    if out.len() >= maxp {
+                        break 'outer;
+                    }
+                    if let (Some(a), Some(b)) = (find(ids[i]), find(ids[i + gap])) {
+                        out.push(json!({"a": a.0, "b": b.0, "limit": limit,
+                                        "ab": run(&[a.clone(), b.clone()], limit), "ba": run(&[b, a], limit)}));
+                    }
+                }
+            }
+            ev.insert("pairs".into(), Value::Array(out));
+        }
+    }
+    if let Some(Value::Array(perms)) = op.get("perms") {
+        let mut out = Vec::new();
+        for p in perms {
+            if let Value::Array(order) = p {
+                let recs: Vec<(usize, Vec<u32>, usize)> =
+                    order.iter().filter_map(|i| sb.shadow.get(i.as_u64().unwrap_or(1 << 40) as usize).cloned()).collect();
+                out.push(json!({"order": recs.iter().map(|rec| rec.0).collect::<Vec<_>>(), "hits": run(&recs, limit)}));
+            }
+        }
+        ev.insert("perms".into(), Value::Array(out));
     }
 }
 
